@@ -43,6 +43,10 @@ fn dl(t: Tx, pre: (i64, i64), post: (i64, i64), gain: Option<i64>) -> TxDelta {
 // summary for `--summarize-before <day s>` (b <= s < c) must then not date its
 // opening Buy inside the 30-day window of the day-c sale, or the re-run denies
 // a loss the original allowed.
+fn st2(bal: i64, all: i64, acb: i64) -> Rc<crate::portfolio::PortfolioSecurityStatus> {
+    status(gez(bal, 0), gez(all, 0), Some(gez(acb, 2)))
+}
+
 su_harness! {
     #[kani::unwind(5)]
     fn c10_summary_buy_not_in_later_loss_window() {
@@ -50,10 +54,15 @@ su_harness! {
         ks::assume(a < b && b < c && b <= s && s < c);
         // the full history reports no superficial loss for the day-c sale
         ks::assume(a < c - 30);
+        // the day-c sale sells k of the seller's 8 shares (possibly all of them);
+        // another affiliate, which never trades in this history, holds o shares
+        let k = any_in(1, 8); let o = any_in(0, 3);
         let deltas = vec![
-            dl(simple_buy(aff(0), date(a), 0), (0, 0), (10, 10000), None),
-            dl(tx(aff(0), date(b), 1, sell(pos(2, 0), gez(2000, 2), gez(0, 0), cad(), None, None)), (10, 10000), (8, 8000), Some(2000)),
-            dl(tx(aff(0), date(c), 2, sell(pos(5, 0), gez(500, 2), gez(0, 0), cad(), None, None)), (8, 8000), (3, 3000), Some(-2500)),
+            delta_of(simple_buy(aff(0), date(a), 0), st2(0, o, 0), st2(10, 10 + o, 10000), None),
+            delta_of(tx(aff(0), date(b), 1, sell(pos(2, 0), gez(2000, 2), gez(0, 0), cad(), None, None)),
+                     st2(10, 10 + o, 10000), st2(8, 8 + o, 8000), Some(dec(2000, 2))),
+            delta_of(tx(aff(0), date(c), 2, sell(pos(k, 0), gez(500, 2), gez(0, 0), cad(), None, None)),
+                     st2(8, 8 + o, 8000), st2(8 - k, 8 - k + o, (8 - k) * 1000), Some(dec(-500 * k, 2))),
         ];
         let ranges = get_summary_range_delta_indicies(date(s), &deltas);
         vcover!("ranges computed");
@@ -71,9 +80,13 @@ su_harness! {
                 }
                 _ => assert!(false, "summary row is not a Buy"),
             }
-            // ... acquired on a date that is outside the window of the later loss sale
+            // ... acquired on a date outside the window of the later loss sale,
+            // whenever some affiliate still holds shares after that sale (otherwise
+            // the loss can never be superficial and the date does not matter)
             let d = txs[0].settlement_date;
-            assert!(d < date(c - 30), "summary Buy lands inside the 30-day window of a later loss sale");
+            if 8 - k + o > 0 {
+                assert!(d < date(c - 30), "summary Buy lands inside the 30-day window of a later loss sale");
+            }
             core::mem::forget(txs); core::mem::forget(warns);
         }
         core::mem::forget(deltas);
